@@ -63,6 +63,18 @@ def gen_plan(seed, index, tier):
             else:
                 col.append(rng.choice(alpha))
         feats.append(col)
+    rare = rng.random() < 0.18
+    if rare:
+        # two or three values that occur once or twice: with a tiny n_boot the resamples then tend to
+        # lose *different* groups while keeping the same number of groups
+        alpha = rng.choice([["a", "b", "c"], ["a", "b", "c", "d"], [0, 1, 2, 3]])
+        col = [alpha[0]] * n
+        pos = rng.sample(range(n), min(n - 2, 2 * (len(alpha) - 1)))
+        for j, v in enumerate(alpha[1:]):
+            col[pos[2 * j]] = v
+            if rng.random() < 0.4:
+                col[pos[2 * j + 1]] = v
+        feats[rng.randrange(nsf)] = col
     varying = rng.random() < 0.85
     ypred = [round(((i * 0.61803398875 + 0.137 * rng.random()) % 1.0), 6) if varying else 0.5 for i in range(n)]
     form = rng.choice(["callable", "dict1", "dict"])
@@ -83,12 +95,15 @@ def gen_plan(seed, index, tier):
         if rng.random() < 0.6:
             qs.sort()
         n_boot = rng.choice([1, 2, 3, 5, 8, 13, 25])
+        if rare:
+            n_boot = rng.choice([2, 2, 3, 3, 4])
     plan = {
         "v": 1, "n": n, "nsf": nsf, "ncf": ncf, "feats": feats, "ypred": ypred, "varying": varying, "form": form,
         "metrics": metrics, "quantiles": qs, "n_boot": n_boot, "rs": rng.randint(0, 2**31 - 1),
         "container": rng.choice(["df", "dict", "array"]),
         "ambient": [rng.choice(["reseed", "consume"]), rng.randint(0, 2**31 - 1)], "other_rs": rng.randint(0, 2**31 - 1),
         "fresh": bool(TIERS[tier].get("fresh_every") and index % TIERS[tier]["fresh_every"] == 0),
+        "rare": rare,
     }
     return plan
 
@@ -291,6 +306,9 @@ def execute(plan, ctx):
                     ctx.fail("C18.wide_pair_width", f"wide quantile pair has no positive width: [{c_lo}, {c_hi}]")
                 elif not (c_lo - 1e-12 <= float(np.mean(v)) <= c_hi + 1e-12):
                     ctx.fail("C18.wide_pair_mean", f"resampling mean {np.mean(v)} is outside [{c_lo}, {c_hi}]")
+    gsets = [frozenset(blk["groups"]) for blk in resamples]
+    if len({len(g) for g in gsets}) == 1 and len(set(gsets)) > 1:
+        ctx.probe("resamples_same_group_count_different_groups")
     missing = any(len(blk["groups"]) < len(blocks[0]["groups"]) for blk in resamples)
     if missing:
         ctx.probe("group_missing_in_some_resample")
